@@ -110,7 +110,7 @@ example : (initState [{ name := "a" }] [{}] 0).a.restarting = true → (initStat
   decide +kernel
 
 /- FULL STATEMENT (no longer true of the code since fix 273f512, was `C08_stopping_is_forever`):
-     theorem C08_stopping_is_forever (s : State) (ops : List Op) (h : s.a.stopping = true) : (run s ops).a.stopping = true
+     ∀ (s : State) (ops : List Op), s.a.stopping = true → (run s ops).a.stopping = true
    Since 273f512 the `except Exception:` of `Arbiter.restart(inside_circusd=True)` sets `_stopping = False` (and
    `_restarting = False`) when the stop of the watchers fails — also when `_stopping` had been set earlier by a `quit`
    whose own stop had failed (`util.synchronized` accepts a `restart` while `_stopping` is set and the slot is free).
